@@ -29,8 +29,10 @@ def classify_add(ad, bd):
 
 def main():
   rep = vlib.Report(PROP, "proof")
-  info = vlib.build_obligations(PROP)
-  errs = rep.obligations(info, "coqc -Q coq/theories QV coq/theories/Properties/C17.v")
+  from translate import qtoolsops
+  gen = qtoolsops.emit(vlib.GEN)
+  info = vlib.build_obligations(PROP, gen_files=[gen], extra_files=[os.path.join(vlib.COQ, "theories", "Link", "QToolsLink.v")])
+  errs = rep.obligations(info, "python3 tools/translate/qtoolsops.py coq/gen && coqc coq/gen/QToolsOps.v && coqc coq/theories/Link/QToolsLink.v && coqc coq/theories/Properties/C17.v")
   for e in errs:
     rep.violation("obligation-" + os.path.basename(e["file"]), "proof obligation no longer checks: " + e["error"][-400:],
                   {"file": e["file"]}, no_input=True)
